@@ -550,3 +550,39 @@ def rule_cg_idle(ctx, R):
                           "%s computes an idle time from %s (line %d); idle time counts from the last delivery (last_delivery, reset by every claim), so an entry claimed a moment ago looks idle to the next XCLAIM with a threshold and is taken away from its new owner" % (
                               fn.split("::")[-1], ", ".join(sorted(f.rsplit(".", 1)[-1] for f in flds)), b.bb_line(i)), b.loc(i))
     R.floor("idle_computations", n)
+
+
+def rule_cg_cursor_readers(ctx, R):
+    """acknowledging, claiming and pending-list queries are decided by the pending list alone:
+    the delivery cursor (last_delivered_id) is consulted only where entries are delivered or the
+    cursor is administered.  (XGROUP SETID may move the cursor below entries that are still
+    pending: anything that filters IDs by the cursor then loses them.)"""
+    fq = "storage::consumer_groups::ConsumerGroup.last_delivered_id"
+    ACCESSORS = (CG + "get_last_id",)
+    DELIVERY = re.compile(r"::(add_pending|get_last_id|set_id|new|read_group|create_group|set_group_id|get_info|info|clone|fmt)$|xinfo|xgroup|xreadgroup", re.I)
+    n = 0
+    for fn, b in sorted(ctx.prog.bodies.items()):
+        if "::tests::" in fn or not fn.startswith(("storage::", "<storage::")):
+            continue
+        touches = False
+        for bb in b.bbs:
+            for st in bb["s"]:
+                if st["k"] != "=":
+                    continue
+                r = st["r"]; pls = [st["l"]]
+                if r["k"] in ("use", "cast") and not op_is_const(r["o"]):
+                    pls.append(op_place(r["o"]))
+                elif r["k"] in ("ref", "discr"):
+                    pls.append(r["p"])
+                if any(isinstance(e, dict) and e.get("f") == fq for pl in pls for e in pl["p"]):
+                    touches = True
+        calls_acc = any(callee(t) in ACCESSORS for _, t in b.calls())
+        if not touches and not calls_acc:
+            continue
+        n += 1
+        role_ok = bool(DELIVERY.search(fn)) or b.trait in ("std::clone::Clone", "std::fmt::Debug")
+        R.inst(fn, "cursor-reader", {"function": fn, "delivery_or_administration": role_ok})
+        if not role_ok:
+            R.finding(fn, "cursor-read:outside-delivery",
+                      "%s consults the group's delivery cursor (last_delivered_id); acknowledging, claiming and pending queries are decided by the pending list alone -- after XGROUP SETID moved the cursor back, entries that are still pending lie beyond it and a filter by the cursor makes them impossible to acknowledge / claim / list" % fn.split("::")[-1], b.loc())
+    R.floor("delivery_cursor_readers", n)
